@@ -98,7 +98,7 @@ impl Move {
     #[inline(always)]
     pub fn set_halfmove_reset(&mut self) { self.bits |= HALFMOVE_RESET_MASK }
     #[inline(always)]
-    pub fn set_previous_halfmove(&mut self, value: u32) { self.bits |= (value << PREVIOUS_HALFMOVE_SHIFT) as u64 }
+    pub fn set_previous_halfmove(&mut self, value: u32) { self.bits |= (value as u64) << PREVIOUS_HALFMOVE_SHIFT }
     #[inline(always)]
     pub fn set_previous_en_passant_square(&mut self, value: SquareShiftBits) { self.bits |= (value as u64) << PREVIOUS_EN_PASSANT_SQUARE_SHIFT }
     #[inline(always)]
